@@ -97,3 +97,17 @@ def equal(a, b, assumptions=None):
         return d2 == 0
     except Exception:
         return False
+
+
+def index_form(e):
+    """(major, stride, minor) texts of an index expression of the form  major * stride + minor
+    (either operand order of the product); None when the expression has another shape"""
+    s = strip(e)
+    if s is None or s.get("k") != "BinaryOperator" or s.get("op") != "+":
+        return None
+    a, b = strip(s["c"][0]), strip(s["c"][1])
+    prod, minor = (a, b) if a.get("k") == "BinaryOperator" and a.get("op") == "*" else (b, a)
+    if prod.get("k") != "BinaryOperator" or prod.get("op") != "*":
+        return None
+    u, v = strip(prod["c"][0]), strip(prod["c"][1])
+    return txt(u), txt(v), txt(minor)
